@@ -7,7 +7,8 @@ ids=${@:-$(ls seeded | grep -v RESULTS)}
 git -C /repo diff --quiet || { echo "/repo has uncommitted changes"; exit 2; }
 for id in $ids; do
   prop=${id%%-*}
-  git -C /repo apply /verif/seeded/$id/patch.diff || { echo "RESULT $id patch does not apply"; continue; }
+  if [ -f /verif/seeded/$id/patch.py ]; then (cd /repo && python3 /verif/seeded/$id/patch.py) || { echo "RESULT $id patch.py failed"; git -C /repo checkout -- .; continue; }
+  else git -C /repo apply /verif/seeded/$id/patch.diff || { echo "RESULT $id patch does not apply"; continue; }; fi
   out=$(timeout 3000 ./check $prop --tier quick 2>&1); rc=$?
   git -C /repo checkout -- .
   v=$(echo "$out" | grep -c '^VIOLATION')
